@@ -21,7 +21,7 @@ use crate::dfa::Dfa;
 use crate::expression::Expression;
 use itertools::Itertools;
 use regex::{Regex, RegexBuilder};
-use std::cmp::Ordering;
+use std::cmp::{Ordering, Reverse};
 use std::fmt::{Display, Formatter, Result};
 
 pub struct RegExp<'a> {
@@ -73,12 +73,21 @@ impl<'a> RegExp<'a> {
                     });
                     #[cfg(grex_verif)]
                     crate::verif::emit(crate::verif::Event::FallbackAlternation);
+                    // Order the test cases by the number of characters they consist of, longest first.
+                    // Otherwise, a test case could be shadowed by a shorter one matching its prefix.
                     let mut exprs = vec![];
-                    for cluster in grapheme_clusters {
+                    for (cluster, test_case) in grapheme_clusters.into_iter().zip(test_cases.iter())
+                    {
                         let literal = Expression::new_literal(cluster, config);
-                        exprs.push(literal);
+                        exprs.push((test_case.chars().count(), literal));
                     }
-                    ast = Expression::new_alternation(exprs, config);
+                    exprs.sort_by_key(|(char_count, _)| Reverse(*char_count));
+                    ast = Expression::Alternation(
+                        exprs.into_iter().map(|(_, literal)| literal).collect_vec(),
+                        config.is_capturing_group_enabled,
+                        config.is_output_colorized,
+                        config.is_verbose_mode_enabled,
+                    );
                 }
             }
         }
